@@ -642,6 +642,100 @@ def rule_orient_region(ctx):
                 "(%d of %d evaluations differ)" % (k, given, got, want, len(bad), rows), fn=f)
 
 
+def rule_quantize(ctx):
+    """sample <-> float conversions at the output boundary, evaluated from MIR"""
+    import struct
+    from .. import absint
+    rid = "R-QUANTIZE"
+    ctx.rule(rid, "the conversions every output format goes through are evaluated from MIR and compared with their definition: "
+                  "BitDepth::parse_integer_sample (integer samples: v / (2^bits - 1) for 8, 12, 16 bits; float samples: the IEEE-style "
+                  "pattern with the declared exponent width, for binary16 and binary32 patterns) and the u8 / u16 `copy_from_f32` "
+                  "quantisers (round half up of v * (2^n - 1), saturating at 0 and 2^n - 1, NaN -> 0) on values away from ties.  "
+                  "A dropped rounding term, a scale of 2^n instead of 2^n - 1 or clamp bounds off by one change every pixel of every "
+                  "integer output")
+    img, ox = ctx.prog.crate("jxl_image"), ctx.prog.crate("jxl_oxide")
+    pis = [g for g in img.fn_list if g.path.endswith("BitDepth::parse_integer_sample")]
+    adt = img.adts.get("jxl_image::BitDepth")
+    q = {}
+    for g in ox.fn_list:
+        if g.path.endswith("::copy_from_f32") and "fb::private::Sealed" in g.path:
+            for ty in ("u8", "u16"):
+                if g.path.startswith("<%s as" % ty):
+                    q[ty] = g
+    if len(pis) != 1 or adt is None or set(q) != {"u8", "u16"}:
+        ctx.anchor_missing(rid, "BitDepth::parse_integer_sample and <u8 / u16 as fb::private::Sealed>::copy_from_f32")
+        return
+    vi = {v["name"]: (i, [x[0] for x in v["fields"]]) for i, v in enumerate(adt["variants"])}
+    if set(vi) != {"IntegerSample", "FloatSample"} or vi["FloatSample"][1] != ["bits_per_sample", "exp_bits"]:
+        ctx.anchor_missing(rid, "BitDepth::{IntegerSample { bits_per_sample }, FloatSample { bits_per_sample, exp_bits }}")
+        return
+    f = pis[0]
+    ctx.seen(f)
+    rows, bad, undec = 0, None, None
+
+    def f32(x):
+        return struct.unpack("<f", struct.pack("<f", x))[0]
+    cases = []
+    for bits in (8, 12, 16):
+        for v in (0, 1, (1 << bits) // 2, (1 << bits) - 1, -3, (1 << bits) + 5):
+            cases.append((absint.Enum("jxl_image::BitDepth", vi["IntegerSample"][0], "IntegerSample", [bits]), v, f32(f32(v) / f32((1 << bits) - 1)),
+                          "%d-bit integer sample %d" % (bits, v)))
+    for pat in (0x3c00, 0xc500, 0x7bff, 0x0400, 0x3555):
+        cases.append((absint.Enum("jxl_image::BitDepth", vi["FloatSample"][0], "FloatSample", [16, 5]), pat, struct.unpack("<e", struct.pack("<H", pat))[0],
+                      "binary16 pattern 0x%04x" % pat))
+    for pat in (0x3f800000, 0xc0490fdb, 0x3eaaaaab, 0x7f7fffff):
+        cases.append((absint.Enum("jxl_image::BitDepth", vi["FloatSample"][0], "FloatSample", [32, 8]), pat, struct.unpack("<f", struct.pack("<I", pat))[0],
+                      "binary32 pattern 0x%08x" % pat))
+    for bd, v, want, desc in cases:
+        ev = absint.Evaluator(ctx.prog)
+        ev.wrap_casts = True
+        try:
+            got = ev.call_fn(f, [bd, v if v < 1 << 31 else v - (1 << 32)])
+        except absint.Unsupported as e:
+            undec = "parse_integer_sample: %s" % e
+            break
+        rows += 1
+        if not isinstance(got, (int, float)) or abs(float(got) - want) > 1e-6 * max(1.0, abs(want)):
+            bad = ("parse_integer_sample", "%s gives %s, the definition gives %r" % (desc, got, want))
+            break
+    if undec:
+        ctx.bad(rid, "sample-to-float|not-evaluable", "no longer a function the evaluator can decide (%s)" % undec, fn=f)
+    elif bad:
+        ctx.bad(rid, "sample-to-float|value", "BitDepth::parse_integer_sample: " + bad[1], fn=f)
+    else:
+        ctx.ok(rid, "sample-to-float", "%d conversions equal the definition" % rows, nontrivial=True, fn=f)
+    rows2 = 0
+    for ty, g in sorted(q.items()):
+        ctx.seen(g)
+        n = 8 if ty == "u8" else 16
+        mx = (1 << n) - 1
+        bad, undec = None, None
+        for v in (-1.0, -0.001, 0.0, 0.4 / mx, 0.6 / mx, 0.25, 0.5, 100.4 / mx, 100.6 / mx, (mx - 0.6) / mx, 1.0, 1.7, 1e9, float("nan")):
+            want = 0 if v != v else max(0, min(mx, int(v * mx + 0.5) if v * mx + 0.5 >= 0 else 0))
+            ev = absint.Evaluator(ctx.prog)
+            fr = absint.Frame(g)
+            ev.frames[fr.id] = fr
+            fr.env[10 ** 6] = 0
+            try:
+                ev.call_fn(g, [absint.Ref(("local", fr.id, 10 ** 6)), v])
+            except absint.Unsupported as e:
+                undec = str(e)
+                break
+            rows2 += 1
+            got = fr.env.get(10 ** 6)
+            if got != want:
+                bad = "%r quantises to %s, round-half-up of v * %d saturated to 0..%d gives %d" % (v, got, mx, mx, want)
+                break
+        key = "float-to-%s" % ty
+        if undec:
+            ctx.bad(rid, key + "|not-evaluable", "<%s as Sealed>::copy_from_f32 is no longer a function the evaluator can decide (%s)" % (ty, undec), fn=g)
+        elif bad:
+            ctx.bad(rid, key + "|value", "<%s as Sealed>::copy_from_f32: %s" % (ty, bad), fn=g)
+        else:
+            ctx.ok(rid, key, "14 values quantise as defined", nontrivial=True, fn=g)
+    ctx.count(rid + ".rows", rows + rows2)
+
+
 def main(pid, tier, repo=None):
     ctx = Ctx(pid, tier, configs=("workspace",), repo=repo)
     rule_orient(ctx)
@@ -651,6 +745,7 @@ def main(pid, tier, repo=None):
     rule_stream_cursor(ctx)
     rule_int_fastpath(ctx)
     rule_orient_region(ctx)
+    rule_quantize(ctx)
     from . import c05
     c05.rule_orient_scope(ctx)        # the orientation is applied at the API boundary only
     ctx.not_decided("float->integer rounding; sample-by-sample equality between interleaved, planar and stream outputs")
